@@ -103,7 +103,8 @@ func (core *JApiCore) compileUserTypeWithAllDependencies(name string) error {
 	sort.Strings(ruleNames)
 	for _, n := range ruleNames {
 		if err := currUT.AddRule(n, core.rules[n]); err != nil {
-			return jschemaToJAPIError(err, dd.GetValue(n))
+			// n names an enum, not a type: the error belongs to the type being compiled.
+			return jschemaToJAPIError(err, dd.GetValue(name))
 		}
 	}
 
